@@ -32,6 +32,11 @@ Spaces (DESIGN.md section 4, C17). Every space is enumerated completely inside t
      reduce_atoms : generic complex / real vectors x dtype x memory layout x backend: reference for EVERY kept copy, the
                 nested-loop partial trace of the full density matrix where it fits, unit trace, hermiticity, positivity,
                 parallelogram and homogeneity residuals (sesquilinearity is the trusted base of F).
+  G  consumers : the two anchored consumers of the Dicke index table, for every (dA,dB,k) of F (k >= 2 for the operators):
+                PureBosonicExt(dA,dB,k).forward(): dm_torch equals embed-then-trace of the vector its manifold returns (atoms
+                written into the parameters), trace 1;  get_ABk_gellmann_preimage_op(kind='boson')[i] equals P^dagger (G_i (x) 1) P
+                with P the Dicke embedding (the reduction in the Heisenberg picture: <psi|op_i|psi> = Tr[G_i rho_AB(psi)] for all
+                psi), kind='symmetric' equals (1/k) sum_j G_i on (A,B_j) - ALL (dA dB)^2-1 Gell-Mann elements.
 Oracle: plain numpy. Partial trace = nested loops over the traced indices (mc.ref.partial_trace); on a matrix unit the
 contraction is Tr_drop|a><b| = delta(a_drop,b_drop)|a_keep><b_keep| by index arithmetic, cross-validated against the nested
 loops for every unit when D <= 12 (harness error if the two references disagree).
@@ -77,6 +82,8 @@ ASSUMPTIONS = [
     'that order',
     'the complete matrix-unit basis is run for D = prod(dim) up to the stated cap; larger dimension lists of the quantifier are '
     'covered by atoms only (the code does not branch on the values of the dimensions, only on length and keep pattern)',
+    'the Gell-Mann matrices of the consumer check are taken from numqi.gellmann.all_gellmann_matrix (their correctness is property '
+    'C16); the vector of PureBosonicExt is read off its manifold (property C01)',
     'torch inputs of utils.partial_trace, GPU tensors, autograd and batched states are outside the explored space; the torch '
     'index triples are cast to the precision of the state as a caller must do (torch matmul needs equal dtypes)',
 ]
@@ -284,6 +291,8 @@ def n_atoms(tier):
 
 P_SYM_CAP = 2200  # dense symmetriser (d^k)^2 float64 only below this
 FULL_DM_CAP = 256  # nested-loop reference of the full density matrix only below this
+CONSUMER_CAP = {'quick': 512, 'thorough': 2048}  # consumers: embedding dimension dA*dB^k
+SYM_OP_CAP = 128  # kind='symmetric' operators live on the full space: (dA dB)^2 matrices of size (dA dB^k)^2
 LITERAL_CAP = 64  # generic dense atoms (printed literally in a finding) only up to this D
 
 
@@ -346,6 +355,8 @@ def build_cases(tier, seed):
             cases.append({'kind': 'reduce', 'dA': dA, 'dB': dB, 'k': k, 'lo': lo, 'hi': hi})
             lo = hi
         cases.append({'kind': 'reduce_atoms', 'dA': dA, 'dB': dB, 'k': k})
+        if dA * dB**k <= CONSUMER_CAP[tier]:
+            cases.append({'kind': 'consumers', 'dA': dA, 'dB': dB, 'k': k})
     info['reduce'] = {'triples': len(trip), 'max_embedding_dim': max(a * b**k for a, b, k in trip),
                       'polarisation_elements': n_pol, 'flavours': ['numpy', 'torch(test-style triples)', 'torch(PureBosonicExt-style triples)'],
                       'complete_quantifier': all((a, b, k) in trip for a in (2, 3, 4) for b in (2, 3, 4) for k in range(1, 6))}
@@ -354,7 +365,8 @@ def build_cases(tier, seed):
     info['note'] = ('exhaustive within the stated bounds: complete matrix-unit basis x all keep-subsets for every listed dimension '
                     'list with product <= cap; complete polarisation alphabet for every listed (dimA,dimB,k); all permutations of '
                     'the copies; all tracing histories. Dimension lists above the cap are covered by atoms only.')
-    order = {'dicke_basis': 0, 'dicke_index': 0, 'pt_basis': 1, 'pt_atoms': 2, 'pt_hist': 3, 'reduce': 4, 'reduce_atoms': 4}
+    info['consumers'] = {'cap_embedding_dim': CONSUMER_CAP[tier], 'symmetric_kind_cap': SYM_OP_CAP}
+    order = {'dicke_basis': 0, 'dicke_index': 0, 'pt_basis': 1, 'pt_atoms': 2, 'pt_hist': 3, 'reduce': 4, 'reduce_atoms': 4, 'consumers': 5}
     cases.sort(key=lambda c: order[c['kind']])  # stable: simplest first inside each family
     return cases, info
 
@@ -1130,8 +1142,122 @@ def run_reduce_atoms(case, out, env):
     out.sample = {'kind': 'reduce_atoms', 'dimA': dA, 'dimB': dB, 'kext': k, 'atoms': [a[0] for a in atoms], 'first_atom': atoms[0][1]}
 
 
+# ---------------------------------------------------------------------------------------------- anchored consumers
+def run_consumers(case, out, env):
+    import numqi
+    import torch
+    dA, dB, k = case['dA'], case['dB'], case['k']
+    basis, klist = numqi_order_basis(numqi, k, dB)
+    if basis is None:
+        out.count('klist_invalid_see_dicke_basis')
+        out.state()
+        out.trans()
+        return
+    nD = len(klist)
+    base = {'dimA': dA, 'dimB': dB, 'kext': k}
+    # ---- PureBosonicExt.forward: the reduced state it reports is the embed-then-trace of its own vector
+    rng = env.rng('C17', 'consumers', dA, dB, k)
+    out.trans()
+    try:
+        model = numqi.entangle.PureBosonicExt(dA, dB, k)
+        model.set_expectation_op(np.eye(dA * dB))
+    except Exception as e:  # noqa
+        out.violation('consumer/PureBosonicExt/%s' % type(e).__name__, 'PureBosonicExt(%d,%d,%d) raised %r' % (dA, dB, k, e), **base)
+        model = None
+    if model is not None:
+        npar = int(sum(p.numel() for p in model.parameters()))
+        for g in range(n_atoms(env.tier)):
+            theta = rng.normal(size=npar)
+            out.state()
+            out.trans()
+            try:
+                numqi.optimize.set_model_flat_parameter(model, theta)
+                with torch.no_grad():
+                    loss = float(model())
+                    vec = to_np(model.manifold()).reshape(dA, -1)
+                dm = to_np(model.dm_torch)
+            except Exception as e:  # noqa
+                out.violation('consumer/PureBosonicExt/forward/%s' % type(e).__name__, 'forward() raised %r' % (e,), theta=theta, **base)
+                break
+            if vec.shape != (dA, nD) or dm.shape != (dA * dB, dA * dB):
+                out.violation('consumer/PureBosonicExt/forward/shape', 'vector %r, dm %r' % (vec.shape, dm.shape), theta=theta, **base)
+                break
+            norm2 = float(np.linalg.norm(vec)**2)
+            tol = C_SAFETY * EPS['c128'] * (nD + dB**(k - 1) + 8) * max(1.0, norm2)
+            exp = ref_reduce(vec, basis, dA, dB, k, 0)
+            err = float(np.abs(dm - exp).max())
+            if not err <= tol:
+                out.violation('consumer/PureBosonicExt/forward/not_embed_then_trace', 'dm_torch differs from embed-then-trace of the manifold vector by %.3g '
+                              '(tol %.3g)' % (err, tol), theta=theta, vector=vec, observed=dm, expected=exp, **base)
+            elif abs(loss - 1) > tol * dA * dB + 64 * EPS['c128']:
+                out.violation('consumer/PureBosonicExt/forward/not_unit_trace', 'Tr(rho_AB * 1) = %r' % loss, theta=theta, **base)
+            out.outcome((dA, dB, k, 'pureb', dm), nontrivial=int(np.count_nonzero(np.abs(dm) > 1e-12)) > 1)
+            out.trace()
+    # ---- preimage operators
+    if k >= 2:
+        N0 = (dA * dB)**2 - 1
+        G = numqi.gellmann.all_gellmann_matrix(dA * dB, with_I=False)
+        P = np.zeros((dA, dB**k, dA, nD))
+        for a in range(dA):
+            P[a, :, a, :] = basis.T
+        T = P.reshape(dA, dB, dB**(k - 1), dA * nD)
+        tol = C_SAFETY * EPS['c128'] * (dA * dB**k + 8) * 2
+        out.trans()
+        try:
+            ops = numqi.maximum_entropy.get_ABk_gellmann_preimage_op(dA, dB, k, kind='boson')
+        except Exception as e:  # noqa
+            out.violation('consumer/get_ABk_gellmann_preimage_op/boson/%s' % type(e).__name__, 'raised %r' % (e,), **base)
+            ops = None
+        if ops is not None:
+            if ops.shape != (N0, dA * nD, dA * nD):
+                out.violation('consumer/get_ABk_gellmann_preimage_op/boson/shape', 'shape %r' % (ops.shape,), **base)
+            else:
+                T2 = T.reshape(dA * dB, dB**(k - 1), dA * nD)
+                exp = np.zeros((N0, dA * nD, dA * nD), dtype=np.complex128)
+                for x in range(dB**(k - 1)):  # P^dagger (G (x) 1) P = sum_x T_x^dagger G T_x, x = configuration of the traced copies
+                    exp += (T2[:, x, :].conj().T[None] @ G) @ T2[:, x, :][None]
+                out.state(N0)
+                err = np.abs(ops - exp).reshape(N0, -1).max(axis=1)
+                if not float(err.max()) <= tol:
+                    i = int(np.argmax(err > tol))
+                    out.violation('consumer/get_ABk_gellmann_preimage_op/boson/not_dual_of_reduction',
+                                  'operator %d for (dimA,dimB,k)=(%d,%d,%d) differs from P^dagger (G_%d (x) 1) P by %.3g (tol %.3g); P = Dicke embedding'
+                                  % (i, dA, dB, k, i, err[i], tol), index=i, observed=ops[i], expected=exp[i], **base)
+                out.outcome((dA, dB, k, 'boson', ops[:4]), nontrivial=True)
+                out.trace()
+        if dA * dB**k <= SYM_OP_CAP:
+            out.trans()
+            try:
+                ops = numqi.maximum_entropy.get_ABk_gellmann_preimage_op(dA, dB, k, kind='symmetric')
+            except Exception as e:  # noqa
+                out.violation('consumer/get_ABk_gellmann_preimage_op/symmetric/%s' % type(e).__name__, 'raised %r' % (e,), **base)
+                ops = None
+            if ops is not None:
+                Df = dA * dB**k
+                if ops.shape != (N0, Df, Df):
+                    out.violation('consumer/get_ABk_gellmann_preimage_op/symmetric/shape', 'shape %r' % (ops.shape,), **base)
+                else:
+                    eye = np.eye(dB**(k - 1))
+                    full0 = np.einsum('iab,xy->iaxby', G, eye).reshape([N0, dA] + [dB] * k + [dA] + [dB] * k)  # G_i on (A, B_0)
+                    exp = 0
+                    for j in range(k):
+                        exp = exp + np.swapaxes(np.swapaxes(full0, 2, 2 + j), 3 + k, 3 + k + j)
+                    exp = (exp / k).reshape(N0, Df, Df)
+                    out.state(N0)
+                    err = np.abs(ops - exp).reshape(N0, -1).max(axis=1)
+                    tol2 = C_SAFETY * EPS['c128'] * (k + 2) * 2
+                    if not float(err.max()) <= tol2:
+                        i = int(np.argmax(err > tol2))
+                        out.violation('consumer/get_ABk_gellmann_preimage_op/symmetric/not_average_over_copies',
+                                      'operator %d for (dimA,dimB,k)=(%d,%d,%d) differs from (1/k) sum_j G_%d on (A,B_j) by %.3g' % (i, dA, dB, k, i, err[i]),
+                                      index=i, **base)
+                    # restricted to the symmetric subspace it is the boson operator
+                    out.trace()
+    out.sample = {'kind': 'consumers', 'dimA': dA, 'dimB': dB, 'kext': k}
+
+
 # =============================================================================================== entry points
-RUNNERS = {'pt_basis': run_pt_basis, 'pt_atoms': run_pt_atoms, 'pt_hist': run_pt_hist, 'dicke_basis': run_dicke_basis,
+RUNNERS = {'consumers': run_consumers, 'pt_basis': run_pt_basis, 'pt_atoms': run_pt_atoms, 'pt_hist': run_pt_hist, 'dicke_basis': run_dicke_basis,
            'dicke_index': run_dicke_index, 'reduce': run_reduce, 'reduce_atoms': run_reduce_atoms}
 
 
